@@ -19,8 +19,9 @@ from __future__ import annotations
 
 import ast
 
+from .. import paths
 from ..cfg import CFG
-from ..pattern import canon
+from ..pattern import canon, match
 from ..project import AnalysisError, call_name, kwarg, norm, walk_no_nested
 
 MAIN = "tpmstream.__main__"
@@ -53,6 +54,31 @@ def check(run, project):
     run.floor("L2", 5)
 
 
+def label(p):
+    return " & ".join(("" if v else "not ") + a for a, v, _ in p.cond if not a.startswith("loop@")) or "always"
+
+
+def tables_in(exprs, dest):
+    """dispatch tables `{...}[args.<dest>]` occurring in the given expressions"""
+    out = []
+    for e in exprs:
+        for n in ast.walk(e):
+            if isinstance(n, ast.Subscript) and norm(n.slice) == f"args.{dest}" and isinstance(n.value, ast.Dict):
+                out.append({k.value: norm(v) for k, v in zip(n.value.keys, n.value.values) if isinstance(k, ast.Constant)})
+    return out
+
+
+def all_exprs(ps):
+    out = []
+    for p in ps:
+        out.extend(e for _k, e, _n in p.effects if e is not None)
+        if p.value is not None:
+            out.append(p.value)
+        for sub in p.loops.values():
+            out.extend(all_exprs(sub))
+    return out
+
+
 def l1(run, mod, fns):
     args = {}
     for st in mod.tree.body:
@@ -65,14 +91,14 @@ def l1(run, mod, fns):
         choices, default, st = args[dest]
         for u in users:
             fn = fns[u]
-            tables = [dict_literal(a.value) for a in walk_no_nested(fn) if isinstance(a, ast.Assign) and norm(a.targets[0]) == dest
-                      and isinstance(a.value, ast.Subscript) and norm(a.value.slice) == f"args.{dest}"]
-            tables = [t for t in tables if t is not None]
-            run.ob("L1", len(tables) == 1, f"{u}: one dispatch table for --{dest}", f"{len(tables)} tables", module=mod, node=fn,
+            ps = paths.Summariser(mod, fn, impure={"fuzzy_match"}).paths()
+            tabs = tables_in(all_exprs(ps), dest)
+            distinct = {tuple(sorted(t.items())) for t in tabs}
+            run.ob("L1", len(distinct) == 1, f"{u}: one dispatch table for --{dest}", f"{len(distinct)} tables", module=mod, node=fn,
                    func=u, construct=f"{u} {dest} table")
-            if len(tables) != 1:
+            if len(distinct) != 1:
                 continue
-            t = tables[0]
+            t = tabs[0]
             run.ob("L1", sorted(t) == sorted(choices), f"{u}: choices of {dest} = keys of its dispatch table",
                    f"choices {sorted(choices)} vs dispatch keys {sorted(t)}: an accepted option has no handler (KeyError) or a handler is unreachable",
                    module=mod, node=st, func=u, construct=f"{dest} choices vs {u} table")
@@ -91,122 +117,220 @@ def l1(run, mod, fns):
                node=c, func="<module>", construct=f"{norm(c.func.value)}.add_argument({c.args[0].value})")
 
 
-def l2(run, mod, fns):
-    conv = fns["convert"]
-    # refusals: `if X is None: return <nonzero>` after fuzzy_match
-    refusals = [s for s in walk_no_nested(conv) if isinstance(s, ast.If) and isinstance(s.test, ast.Compare)
-                and isinstance(s.test.ops[0], ast.Is) and isinstance(s.test.comparators[0], ast.Constant) and s.test.comparators[0].value is None]
-    fm = [a for a in walk_no_nested(conv) if isinstance(a, ast.Assign) and isinstance(a.value, ast.Call) and call_name(a.value) == "fuzzy_match"]
-    run.ob("L2", len(fm) >= 2, "convert resolves type and command names through fuzzy_match", f"{len(fm)} fuzzy_match calls", module=mod,
-           node=conv, func="convert", construct="fuzzy_match calls")
-    for a in fm:
-        v = norm(a.targets[0])
-        guard = [r for r in refusals if norm(r.test.left) == v]
-        ok = len(guard) == 1 and len(guard[0].body) == 1 and isinstance(guard[0].body[0], ast.Return) and \
-            nonzero(guard[0].body[0].value)
-        run.ob("L2", ok, f"convert: unknown {v} is refused with a non-zero status",
-               f"no `if {v} is None: return <non-zero>` after fuzzy_match (an unknown name would be decoded as None / exit 0)",
-               module=mod, node=a, func="convert", construct=f"refusal for {v}")
-    # Response without --command
-    rc = [s for s in walk_no_nested(conv) if isinstance(s, ast.If) and norm(s.test) == "not args.command"]
-    ok = len(rc) == 1 and isinstance(rc[0].body[-1], ast.Return) and nonzero(rc[0].body[-1].value) and \
-        any(isinstance(c, ast.Call) and call_name(c) == "print" and kwarg(c, "file") is not None and norm(kwarg(c, "file")) == "sys.stderr"
-            for c in ast.walk(rc[0]))
-    par = rc[0]._parent if rc else None
-    ok = ok and isinstance(par, ast.If) and norm(par.test) == "tpm_type is Response"
-    run.ob("L2", ok, "convert: --type=Response without --command is refused on stderr with a non-zero status",
-           "the Response-needs-command refusal changed", module=mod, node=rc[0] if rc else conv, func="convert",
-           construct="refusal Response without command")
-    last = conv.body[-1]
-    run.ob("L2", isinstance(last, ast.Return) and isinstance(last.value, ast.Constant) and last.value.value == 0,
-           "convert: the normal end returns 0", f"convert ends with `{norm(last)}`", module=mod, node=last, func="convert",
-           construct="convert final return")
-    raises = [r for r in walk_no_nested(conv) if isinstance(r, ast.Raise)]
-    for r in raises:
-        guard = r._parent
-        conj = set()
-        nested = False
-        if isinstance(guard, ast.If):
-            conj = {norm(v) for v in (guard.test.values if isinstance(guard.test, ast.BoolOp) and isinstance(guard.test.op, ast.And) else [guard.test])}
-            nested = guard._parent is not conv
-        want = {canon("tpm_type is not CommandResponseStream"), canon("args.format_in == 'auto'")}
-        run.ob("L2", conj == want and not nested, "convert refuses --in=auto only for a type other than the stream type",
-               f"the refusal is guarded by {sorted(conj)}{' inside another branch' if nested else ''}: `--type=CommandResponseStream --in=auto` "
-               "(the defaults spelled out) is refused although the library decodes it", module=mod, node=r, func="convert",
-               construct="convert auto/custom-type refusal guard")
-    fz = fns["fuzzy_match"]
-    pr = [c for c in walk_no_nested(fz) if isinstance(c, ast.Call) and call_name(c) == "print"]
-    ok = len(pr) == 1 and kwarg(pr[0], "file") is not None and norm(kwarg(pr[0], "file")) == "sys.stderr" and "closest_match" in norm(fz) \
-        and "get_close_matches" in norm(fz)
-    rets = [s for s in walk_no_nested(fz) if isinstance(s, ast.Return)]
-    ok = ok and isinstance(fz.body[-1], ast.Return) and isinstance(fz.body[-1].value, ast.Constant) and fz.body[-1].value.value is None
-    run.ob("L2", ok, "fuzzy_match: a miss prints a suggestion to stderr and returns None", "fuzzy_match miss path changed", module=mod,
-           node=fz, func="fuzzy_match", construct="fuzzy_match miss")
-    hit = [s for s in ast.walk(fz) if isinstance(s, ast.Try)]
-    ok = len(hit) == 1 and norm(hit[0].body[0]) == canon("result = options[input]") and [norm(x) for x in hit[0].orelse] == ["return result"] \
-        and norm(hit[0].handlers[0].type) == "KeyError"
-    run.ob("L2", ok, "fuzzy_match: an exact name is returned as is", "fuzzy_match hit path changed", module=mod, node=fz,
-           func="fuzzy_match", construct="fuzzy_match hit")
-    mn = fns["main"]
-    ok = canon("ret = args.func(args)") in [norm(s) for s in mn.body] and norm(mn.body[-1]) == canon("sys.exit(ret)")
-    run.ob("L2", ok, "main exits with the sub-command's status", "main() no longer exits with the sub-command's return value",
-           module=mod, node=mn, func="main", construct="main exit status")
-    ex = fns["examples"]
-    fm = [a for a in walk_no_nested(ex) if isinstance(a, ast.Assign) and isinstance(a.value, ast.Call) and call_name(a.value) == "fuzzy_match"]
-    for a in fm:
-        v = norm(a.targets[0])
-        g = [s for s in walk_no_nested(ex) if isinstance(s, ast.If) and norm(s.test) == f"{v} is None"]
-        ok = len(g) == 1 and isinstance(g[0].body[0], ast.Return) and nonzero(g[0].body[0].value)
-        run.ob("L2", ok, "example: an unknown name is refused with a non-zero status", "refusal in examples changed", module=mod,
-               node=a, func="examples", construct="examples refusal")
-
-
 def nonzero(v):
     if isinstance(v, ast.UnaryOp) and isinstance(v.op, ast.USub) and isinstance(v.operand, ast.Constant):
         return v.operand.value != 0
-    return isinstance(v, ast.Constant) and isinstance(v.value, int) and v.value != 0
+    return isinstance(v, ast.Constant) and isinstance(v.value, int) and not isinstance(v.value, bool) and v.value != 0
+
+
+def fuzzy_binds(p):
+    """{variable: fuzzy_match call} resolved on this path"""
+    return {norm(e.targets[0]): e.value for k, e, _ in p.effects if k == "bind" and isinstance(e.value, ast.Call)
+            and call_name(e.value) == "fuzzy_match" and isinstance(e.targets[0], ast.Name)}
+
+
+def decodes(p):
+    return any("format_in].marshal(" in paths.text(e) for _k, e, _n in p.effects if e is not None)
+
+
+def stderr_print(p):
+    return any(k == "call" and call_name(e) == "print" and kwarg(e, "file") is not None and norm(kwarg(e, "file")) == "sys.stderr"
+               for k, e, _ in p.effects)
+
+
+TYPES_TABLE = "{M_t.__name__: M_t for M_t in all_types}"
+CODES_TABLE = "{cc_name(M_c): M_c for M_c in TPM_CC}"
+
+
+def l2(run, mod, fns):
+    conv = fns["convert"]
+    ps = paths.Summariser(mod, conv, impure={"fuzzy_match"}).paths()
+    run.require(len(ps) >= 6, "C19: paths of convert not found")
+    n_fm = 0
+    seen_refusal = {"type": False, "command": False, "response": False, "auto": False, "ok": False}
+    for p in ps:
+        fb = fuzzy_binds(p)
+        n_fm = max(n_fm, len(fb))
+        lab = label(p)
+        tv = [v for v, c in fb.items() if c.args and norm(c.args[0]) == "args.type"]
+        cv = [v for v, c in fb.items() if c.args and norm(c.args[0]) == "args.command"]
+        T = tv[0] if tv else ("CommandResponseStream" if p.truth("args.type is None") else None)
+        # an unknown name (fuzzy_match returned None) is refused with a non-zero status and nothing is decoded
+        refused = False
+        for v in fb:
+            if p.truth(f"{v} is None") is True:
+                refused = True
+                seen_refusal["type" if v in tv else "command"] = True
+                ok = p.end == "return" and p.value is not None and nonzero(p.value) and not decodes(p)
+                run.ob("L2", ok, f"convert [{lab}]: unknown {v} is refused with a non-zero status",
+                       f"no `if {v} is None: return <non-zero>` after fuzzy_match: the path ends with {p.end} {p.value_text()}"
+                       f"{' after decoding' if decodes(p) else ''} (an unknown name would be decoded as None / exit 0)", module=mod,
+                       node=p.node or conv, func="convert", construct=f"refusal for {'tpm_type' if v in tv else 'command_code'}")
+            elif p.truth(f"{v} is None") is None and (decodes(p) or p.end != "return" or not nonzero(p.value)):
+                # the result is used without having been tested
+                run.ob("L2", False, f"convert [{lab}]: {v} tested", f"no `if {v} is None: return <non-zero>` after fuzzy_match (an unknown "
+                       "name would be decoded as None / exit 0)", module=mod, node=p.node or conv, func="convert",
+                       construct=f"refusal for {'tpm_type' if v in tv else 'command_code'}")
+        if refused:
+            continue
+        # --type=Response without --command
+        if T is not None and p.truth(f"{T} is Response") is True and p.truth("truthy args.command") is False:
+            seen_refusal["response"] = True
+            ok = p.end == "return" and p.value is not None and nonzero(p.value) and stderr_print(p) and not decodes(p)
+            run.ob("L2", ok, "convert: --type=Response without --command is refused on stderr with a non-zero status",
+                   f"the Response-needs-command refusal changed: [{lab}] ends with {p.end} {p.value_text()}, stderr message: {stderr_print(p)}",
+                   module=mod, node=p.node or conv, func="convert", construct="refusal Response without command")
+            continue
+        if T is not None and p.truth(f"{T} is Response") is True and not cv and (decodes(p) or p.end == "raise"):
+            run.ob("L2", False, f"convert [{lab}]: Response needs its command", "a Response is decoded without resolving --command",
+                   module=mod, node=p.node or conv, func="convert", construct="refusal Response without command")
+        # --in=auto with a custom type
+        is_stream = True if T == "CommandResponseStream" else p.truth(f"{T} is CommandResponseStream") if T else None
+        auto = p.truth("args.format_in == 'auto'")
+        raises = p.end == "raise"
+        if raises:
+            seen_refusal["auto"] = True
+            ok = is_stream is False and auto is True and p.value is not None and (call_name(p.value) or "") == "RuntimeError"
+            run.ob("L2", ok, "convert refuses --in=auto only for a type other than the stream type",
+                   f"the refusal is taken on the path [{lab}] (stream type: {is_stream}, --in=auto: {auto}): "
+                   "`--type=CommandResponseStream --in=auto` (the defaults spelled out) is refused although the library decodes it",
+                   module=mod, node=p.node or conv, func="convert", construct="convert auto/custom-type refusal guard")
+            continue
+        if is_stream is False and auto is True:
+            run.ob("L2", False, f"convert [{lab}]", "a custom type is decoded with --in=auto (format detection is only defined for streams)",
+                   module=mod, node=p.node or conv, func="convert", construct="convert auto/custom-type refusal guard")
+        # the normal end
+        seen_refusal["ok"] = True
+        run.ob("L2", p.end == "return" and p.value is not None and isinstance(p.value, ast.Constant) and p.value.value == 0 and decodes(p),
+               f"convert [{lab[:60]}]: the normal end returns 0", f"convert ends with `{p.end} {p.value_text()}`", module=mod,
+               node=p.node or conv, func="convert", construct="convert final return")
+        l3_path(run, mod, conv, p, T, cv, fb)
+    run.ob("L2", n_fm >= 2, "convert resolves type and command names through fuzzy_match", f"{n_fm} fuzzy_match calls", module=mod,
+           node=conv, func="convert", construct="fuzzy_match calls")
+    for k, what in (("type", "refusal for tpm_type"), ("command", "refusal for command_code"), ("response", "refusal Response without command"),
+                    ("auto", "convert auto/custom-type refusal guard"), ("ok", "convert final return")):
+        run.ob("L2", seen_refusal[k], f"convert has the path: {what}", f"convert has no path for: {what}", module=mod, node=conv,
+               func="convert", construct=what)
+    # ---- fuzzy_match
+    fz = fns["fuzzy_match"]
+    a_in, a_opt = fz.args.args[0].arg, fz.args.args[1].arg
+    fps = paths.Summariser(mod, fz).paths()
+    hit = [p for p in fps if not any(a.startswith("try@") for a, _v, _ in p.cond)]
+    miss = [p for p in fps if any(a.startswith("try@") and "KeyError" in a for a, _v, _ in p.cond)]
+    ok = bool(hit) and all(p.end == "return" and p.value_text() == f"{a_opt}[{a_in}]" and not stderr_print(p) for p in hit)
+    run.ob("L2", ok, "fuzzy_match: an exact name is returned as is", f"fuzzy_match hit path changed: {[p.value_text() for p in hit]}",
+           module=mod, node=fz, func="fuzzy_match", construct="fuzzy_match hit")
+    ok = bool(miss) and all(p.end == "return" and p.value_text() in ("None", None) and stderr_print(p) and
+                            any("get_close_matches(" in paths.text(e) for k, e, _ in p.effects if k == "call") for p in miss) \
+        and len(hit) + len(miss) == len(fps)
+    run.ob("L2", ok, "fuzzy_match: a miss prints a suggestion to stderr and returns None", "fuzzy_match miss path changed", module=mod,
+           node=fz, func="fuzzy_match", construct="fuzzy_match miss")
+    # ---- main
+    mn = fns["main"]
+    mps = paths.Summariser(mod, mn, impure={"parser.parse_args"}).paths()
+    ok = len(mps) == 1
+    if ok:
+        calls = [paths.text(e) for k, e, _ in mps[0].effects if k == "call"]
+        av = [norm(e.targets[0]) for k, e, _ in mps[0].effects if k == "bind" and "parse_args" in norm(e.value)]
+        ok = len(av) == 1 and calls[-1:] == [f"sys.exit({av[0]}.func({av[0]}))"]
+    run.ob("L2", ok, "main exits with the sub-command's status", "main() no longer exits with the sub-command's return value",
+           module=mod, node=mn, func="main", construct="main exit status")
+    # ---- examples refusal
+    ex = fns["examples"]
+    eps = paths.Summariser(mod, ex, impure={"fuzzy_match"}).paths()
+    n = 0
+    for p in eps:
+        for v in fuzzy_binds(p):
+            t = p.truth(f"{v} is None")
+            if t is True:
+                n += 1
+                run.ob("L2", p.end == "return" and p.value is not None and nonzero(p.value), "example: an unknown name is refused with a "
+                       "non-zero status", "refusal in examples changed", module=mod, node=p.node or ex, func="examples",
+                       construct="examples refusal")
+            elif t is None:
+                run.ob("L2", False, "example: the resolved name is tested", "refusal in examples changed: the result of fuzzy_match is used "
+                       "untested", module=mod, node=p.node or ex, func="examples", construct="examples refusal")
+    run.ob("L2", n >= 1, "example: refusal path exists", "refusal in examples changed", module=mod, node=ex, func="examples",
+           construct="examples refusal")
+
+
+def l3_path(run, mod, conv, p, T, cv, fb):
+    """a decoding path of convert: arguments of the decode call, and the print loop"""
+    lab = label(p)[:60]
+    loops = [(e, n) for k, e, n in p.effects if k == "loop"]
+    dec = [c for e, _n in loops for c in ast.walk(e) if isinstance(c, ast.Call) and isinstance(c.func, ast.Attribute)
+           and c.func.attr == "marshal" and "args.format_in" in norm(c.func.value)]
+    run.ob("L3", len(dec) == 1 and len(loops) == 1, "convert decodes through the selected front-end",
+           f"{len(dec)} format_in.marshal calls feed {len(loops)} print loops", module=mod, node=conv, func="convert",
+           construct="format_in.marshal call")
+    if len(dec) != 1 or len(loops) != 1:
+        return
+    c, (it, lp) = dec[0], loops[0]
+    kws = {k.arg: norm(k.value) for k in c.keywords}
+    # the selected type: the stream type by default, else what --type resolved to
+    if T is not None and T != "CommandResponseStream":
+        tcall = fb.get(T)
+        okt = tcall is not None and len(tcall.args) >= 2 and match(tcall.args[1], TYPES_TABLE) is not None
+        run.ob("L3", okt, "--type is resolved among all decodable types", f"--type is resolved with `{norm(tcall) if tcall is not None else None}`",
+               module=mod, node=conv, func="convert", construct="type resolution")
+    run.ob("L3", T is not None and kws.get("tpm_type") == T, f"convert [{lab}]: tpm_type={T}" if T != "CommandResponseStream" else
+           "without --type the whole input is a command/response stream",
+           f"tpm_type is `{kws.get('tpm_type')}` (default type selection changed)" if T == "CommandResponseStream" else
+           f"tpm_type is `{kws.get('tpm_type')}`", module=mod, node=conv, func="convert",
+           construct="default type" if T == "CommandResponseStream" else "format_in.marshal(tpm_type)")
+    want_cc = cv[0] if cv else "None"
+    if cv:
+        ccall = fb[cv[0]]
+        okc = len(ccall.args) >= 2 and match(ccall.args[1], CODES_TABLE) is not None
+        run.ob("L3", okc, "--command is resolved among the command codes", f"--command is resolved with `{norm(ccall)}`", module=mod,
+               node=conv, func="convert", construct="command resolution")
+    for k, v in (("buffer", "bytes_from_files(args.file)"), ("command_code", want_cc), ("abort_on_error", "False")):
+        run.ob("L3", kws.get(k) == v, f"convert [{lab}]: {k}={v}", f"{k} is `{kws.get(k)}`", module=mod, node=conv, func="convert",
+               construct=f"format_in.marshal({k})")
+    ok = isinstance(it, ast.Call) and isinstance(it.func, ast.Attribute) and it.func.attr == "unmarshal" and \
+        "args.format_out" in norm(it.func.value) and len(it.args) == 1 and it.args[0] is not None and norm(it.args[0]) == norm(c) \
+        and not it.keywords
+    run.ob("L3", ok, "convert prints what the selected printer yields for these events",
+           "the print loop does not iterate format_out.unmarshal(events)", module=mod, node=lp, func="convert",
+           construct="print loop source")
+    if not isinstance(lp, ast.For) or not isinstance(lp.target, ast.Name):
+        run.ob("L3", False, "print loop", "the print loop changed", module=mod, node=lp, func="convert", construct="print loop body")
+        return
+    item = lp.target.id
+    body = p.loops[id(lp)]
+    for b in body:
+        isb = b.truth(f"isinstance({item}, bytes)")
+        fx = b.effect_texts()
+        run.ob("L3", b.end == "fall", "convert prints every item", f"{b.end} inside the print loop", module=mod, node=b.node or lp,
+               func="convert", construct="print loop cut")
+        want = [("call", f"print(' ' + binascii.hexlify({item}).decode(), end='')")] if isb else [("call", f"print({item})")]
+        run.ob("L3", isb is not None and fx == want, "bytes items are printed as hex, text items as they are",
+               f"the body of the print loop changed: [{label(b)}] does {fx}", module=mod, node=b.node or lp, func="convert",
+               construct="print loop body")
 
 
 def l3(run, mod, fns):
-    conv = fns["convert"]
-    calls = [c for c in walk_no_nested(conv) if isinstance(c, ast.Call) and norm(c.func) == "format_in.marshal"]
-    run.ob("L3", len(calls) == 1, "convert decodes through the selected front-end", f"{len(calls)} format_in.marshal calls", module=mod,
-           node=conv, func="convert", construct="format_in.marshal call")
-    if calls:
-        c = calls[0]
-        kws = {k.arg: norm(k.value) for k in c.keywords}
-        want = {"tpm_type": "tpm_type", "buffer": "bytes_from_files(args.file)", "command_code": "command_code", "abort_on_error": "False"}
-        for k, v in want.items():
-            run.ob("L3", kws.get(k) == v, f"convert: {k}={v}", f"{k} is `{kws.get(k)}`", module=mod, node=c, func="convert",
-                   construct=f"format_in.marshal({k})")
-        tgt = c._parent.targets[0].id if isinstance(c._parent, ast.Assign) else None
-        loops = [s for s in conv.body if isinstance(s, ast.For) and norm(s.iter) == f"format_out.unmarshal({tgt})"]
-        run.ob("L3", len(loops) == 1, "convert prints what the selected printer yields for these events",
-               "the print loop does not iterate format_out.unmarshal(events)", module=mod, node=conv, func="convert",
-               construct="print loop source")
-        if loops:
-            lp = loops[0]
-            item = lp.target.id
-            cut = [n for n in ast.walk(lp) if isinstance(n, (ast.Break, ast.Continue, ast.Return))]
-            run.ob("L3", not cut, "convert prints every item", "break/continue/return inside the print loop", module=mod,
-                   node=cut[0] if cut else lp, func="convert", construct="print loop cut")
-            ok = len(lp.body) == 1 and isinstance(lp.body[0], ast.If) and norm(lp.body[0].test) == f"isinstance({item}, bytes)"
-            if ok:
-                a = [norm(x) for x in lp.body[0].body]
-                b = [norm(x) for x in lp.body[0].orelse]
-                ok = a == [canon(f"print(' ' + binascii.hexlify({item}).decode(), end='')")] and b == [f"print({item})"]
-            run.ob("L3", ok, "bytes items are printed as hex, text items as they are", "the body of the print loop changed", module=mod,
-                   node=lp, func="convert", construct="print loop body")
-    # tpm_type selection: CommandResponseStream when --type is absent
-    sel = [s for s in conv.body if isinstance(s, ast.If) and norm(s.test) == "args.type is None"]
-    ok = len(sel) == 1 and [norm(x) for x in sel[0].body] == ["tpm_type = CommandResponseStream"]
-    run.ob("L3", ok, "without --type the whole input is a command/response stream", "default type selection changed", module=mod,
-           node=sel[0] if sel else conv, func="convert", construct="default type")
+    pass  # decided per decoding path of convert, inside l2 (l3_path)
+
+
+def loops_where(ps, pred, seen=None):
+    """(enclosing path, loop node, iteration paths) for every summarised loop whose node satisfies pred, at any depth"""
+    out = []
+    seen = set() if seen is None else seen
+    for p in ps:
+        for k, e, n in p.effects:
+            if k == "loop" and id(n) in p.loops:
+                key = (id(n), repr(p), tuple(sorted((k_, paths.text(v_)) for k_, v_ in p.env.items() if v_ is not None)))
+                if pred(n, e) and key not in seen:
+                    seen.add(key)
+                    out.append((p, n, e, p.loops[id(n)]))
+                out.extend(loops_where(p.loops[id(n)], pred, seen))
+    return out
 
 
 def l4(run, mod, fns):
     fn = fns["parse_all_types"]
-    trys = [s for s in ast.walk(fn) if isinstance(s, ast.Try)]
+    trys = [s_ for s_ in ast.walk(fn) if isinstance(s_, ast.Try)]
     run.require(len(trys) == 1, "C19: try block of parse_all_types not found")
     t = trys[0]
     caught = set()
@@ -220,73 +344,111 @@ def l4(run, mod, fns):
            node=t, func=fn.name, construct="parse_all_types except tuple")
     run.ob("L4", caught <= DOCUMENTED, "type search catches nothing broader (internal errors are not hidden)",
            f"also catches {sorted(caught - DOCUMENTED)}", module=mod, node=t, func=fn.name, construct="parse_all_types except breadth")
-    for h in t.handlers:
-        run.ob("L4", [norm(x) for x in h.body] == ["continue"], "a rejected type is skipped", "handler does more than continue",
-               module=mod, node=h, func=fn.name, construct="parse_all_types handler")
-    can = [c for c in ast.walk(t) if isinstance(c, ast.Call) and call_name(c) == "Canonical"]
-    ok = len(can) == 1
-    if ok:
-        kws = {k.arg: norm(k.value) for k in can[0].keywords}
-        ok = kws.get("abort_on_error") == "True" and kws.get("lazy") == "False" and kws.get("tpm_type") == "tpm_type" and \
-            kws.get("command_code") == "command_code" and kws.get("input") == "buffer" and kws.get("format_in") == "format_in"
-    run.ob("L4", ok, "each candidate is decoded strictly and completely", "Canonical(...) arguments changed", module=mod,
-           node=can[0] if can else t, func=fn.name, construct="parse_all_types Canonical")
-    skips = [norm(s.test) for s in fn.body[0].body if isinstance(s, ast.If) and [norm(x) for x in s.body] == ["continue"]] \
-        if isinstance(fn.body[0], ast.For) else []
-    ok = sorted(skips) == sorted([canon("tpm_type is CommandResponseStream"), canon("tpm_type.__name__.startswith('TPMU')")])
-    run.ob("L4", ok, "only the stream type and union types are excluded from the search", f"skips: {skips}", module=mod, node=fn,
-           func=fn.name, construct="parse_all_types skips")
-    run.ob("L4", isinstance(fn.body[0], ast.For) and norm(fn.body[0].iter) == "all_types", "every type is tried",
+    ps = paths.Summariser(mod, fn).paths()
+    outer = loops_where(ps, lambda n, e: isinstance(n, ast.For) and n in fn.body)
+    run.ob("L4", len(outer) == 1 and paths.text(outer[0][2]) == "all_types" and isinstance(outer[0][1].target, ast.Name), "every type is tried",
            "the search does not iterate all_types", module=mod, node=fn, func=fn.name, construct="parse_all_types domain")
-    rs = [s for s in ast.walk(fn) if isinstance(s, ast.If) and norm(s.test) == "tpm_type is Response"]
-    ok = len(rs) == 1 and [norm(x) for x in rs[0].body] == ["command_codes = TPM_CC"]
-    run.ob("L4", ok, "Response is tried with every command code", "command-code enumeration for Response changed", module=mod,
-           node=rs[0] if rs else fn, func=fn.name, construct="parse_all_types response codes")
+    if len(outer) != 1 or not isinstance(outer[0][1].target, ast.Name):
+        return
+    tv = outer[0][1].target.id
+    A, U, R = f"{tv} is CommandResponseStream", f"{tv}.__name__.startswith('TPMU')", f"{tv} is Response"
+    spec = [({A: True}, "skip"), ({U: True}, "skip"), ({R: True}, "TPM_CC")]
+    for b in outer[0][3]:
+        lps = [(e, n) for k, e, n in b.effects if k == "loop"]
+        got = "skip" if not lps and b.end in ("continue", "fall") and not b.effect_texts(("yield", "call")) else \
+            paths.text(lps[0][0]) if len(lps) == 1 else "?"
+        want = paths.decide(spec, "(None,)", b)
+        kind = "parse_all_types skips" if got == "skip" or want == {"skip"} else "parse_all_types response codes"
+        run.ob("L4", want == {got}, f"type search [{label(b)}]: {got}",
+               f"for a type with [{label(b)}] the search does `{got}` where {sorted(want)} is required (only the stream type and union "
+               "types are excluded; Response is tried with every command code)", module=mod, node=b.node or (b.cond[-1][2] if b.cond else fn),
+               func=fn.name, construct=kind)
+        for e, n in lps:
+            if not isinstance(n, ast.For) or not isinstance(n.target, ast.Name):
+                continue
+            cv = n.target.id
+            want_call = ("Canonical(input=buffer, format_in=format_in, tpm_type={t}, command_code={c}, lazy=False, abort_on_error=True)"
+                         .format(t=tv, c=cv))
+            for ib in b.loops[id(n)]:
+                rejected = any(a.startswith("try@") for a, _v, _ in ib.cond)
+                if rejected:
+                    run.ob("L4", ib.end == "continue" and not ib.effect_texts(("yield", "call", "store")), "a rejected type is skipped",
+                           "handler does more than continue", module=mod, node=ib.node or n, func=fn.name,
+                           construct="parse_all_types handler")
+                else:
+                    ys = ib.effects and [x for x in ib.effects if x[0] == "yield"]
+                    ok = len(ys) == 1 and isinstance(ys[0][1], ast.Tuple) and len(ys[0][1].elts) == 2 and norm(ys[0][1].elts[1]) == cv \
+                        and isinstance(ys[0][1].elts[0], ast.Call) and call_name(ys[0][1].elts[0]) == "Canonical" \
+                        and sorted((k.arg, norm(k.value)) for k in ys[0][1].elts[0].keywords) == sorted(
+                            (k.arg, norm(k.value)) for k in paths.pattern_expr(want_call).keywords) and not ys[0][1].elts[0].args
+                    run.ob("L4", ok, "each candidate is decoded strictly and completely, and reported with its command code",
+                           f"Canonical(...) arguments changed: yields {[paths.text(y[1]) for y in ys]}", module=mod, node=ib.node or n,
+                           func=fn.name, construct="parse_all_types Canonical")
 
 
 def l5(run, mod, fns):
     fn = fns["examples"]
     ff = fns["find_fields"]
-    ok = canon("if type(obj) is tpm_type:\n    yield obj") == norm(ff.body[0])
-    run.ob("L5", ok, "find_fields selects objects of exactly the sought type", "find_fields match changed", module=mod, node=ff,
+    fps = paths.Summariser(mod, ff).paths()
+    o, t = ff.args.args[1].arg, ff.args.args[0].arg
+    X = f"type({o}) is {t}"
+    okm = all(p.truth(X) is not None and ([e for k, e in p.effect_texts(("yield",))] == ([o] if p.truth(X) else [])) for p in fps) and fps
+    run.ob("L5", okm, "find_fields selects objects of exactly the sought type", "find_fields match changed", module=mod, node=ff,
            func="find_fields", construct="find_fields match")
-    rec = [c for c in walk_no_nested(ff) if isinstance(c, ast.Call) and call_name(c) == "find_fields"]
-    ok = len(rec) == 1 and norm(kwarg(rec[0], "tpm_type")) == "tpm_type" and norm(kwarg(rec[0], "obj")) == "getattr(obj, field.name)"
-    run.ob("L5", ok, "find_fields recurses into every field with the same sought type", "find_fields recursion changed", module=mod,
+    rec = loops_where(fps, lambda n, e: isinstance(n, ast.For))
+    okr = bool(rec) and all(paths.text(e) == f"fields({o})" and isinstance(n.target, ast.Name) and len(sub) == 1 and
+                            sub[0].effect_texts() == [("yieldfrom", f"find_fields(tpm_type={t}, obj=getattr({o}, {n.target.id}.name))")]
+                            for _p, n, e, sub in rec)
+    run.ob("L5", okr, "find_fields recurses into every field with the same sought type", "find_fields recursion changed", module=mod,
            node=ff, func="find_fields", construct="find_fields recursion")
-    guards = [s for s in ast.walk(fn) if isinstance(s, ast.If) and isinstance(s.test, ast.BoolOp) and isinstance(s.test.op, ast.Or)
-              and any(norm(v) == canon("command_code is None") for v in s.test.values)]
-    ok = len(guards) == 1
-    if ok:
-        vals = {norm(v) for v in guards[0].test.values}
-        ok = vals == {canon("command_code is None"), canon("hasattr(obj, 'commandCode') and obj.commandCode == command_code"),
-                      canon("hasattr(obj, '_command_code') and obj._command_code == command_code")}
-    run.ob("L5", ok, "a message is shown only if its command code is the sought one (or a type is sought)",
-           "the command-code filter of `example` changed", module=mod, node=guards[0] if guards else fn, func="examples",
-           construct="examples command filter")
-    if guards:
-        prints = [c for c in ast.walk(fn) if isinstance(c, ast.Call) and call_name(c) == "print" and c.lineno > guards[0].lineno]
-        inside = {id(x) for x in ast.walk(guards[0])}
-        outside = [c for c in prints if id(c) not in inside]
-        run.ob("L5", not outside and prints, "every example line is printed under that filter",
-               "an example is printed outside the command-code filter", module=mod, node=outside[0] if outside else guards[0],
-               func="examples", construct="examples prints under filter")
-    sel = [s for s in ast.walk(fn) if isinstance(s, ast.If) and norm(s.test) == "tpm_type"]
-    ok = len(sel) == 1 and [norm(x) for x in sel[0].body] == [canon("objs_to_print = list(find_fields(tpm_type=tpm_type, obj=obj))")] and \
-        [norm(x) for x in sel[0].orelse] == [canon("objs_to_print = (obj,)")]
-    run.ob("L5", ok, "for a type, only the sub-objects of exactly that type are shown", "object selection of `example` changed", module=mod,
-           node=sel[0] if sel else fn, func="examples", construct="examples object selection")
-    enc = [c for c in ast.walk(fn) if isinstance(c, ast.Call) and call_name(c) == "Binary.unmarshal"]
-    prt = [c for c in ast.walk(fn) if isinstance(c, ast.Call) and call_name(c) == "Pretty.unmarshal"]
-    ok = len(enc) == 1 and len(prt) == 1 and isinstance(enc[0].args[0], ast.Name) and norm(enc[0].args[0]) == norm(prt[0].args[0])
-    if ok:
-        v = enc[0].args[0].id
-        loop = enc[0]
-        while loop is not None and not (isinstance(loop, ast.For) and any(isinstance(t, ast.Name) for t in ast.walk(loop.target))
-                                        and norm(loop.iter) == "objs_to_print"):
-            loop = getattr(loop, "_parent", None)
-        defs = [a for a in ast.walk(loop) if isinstance(a, ast.Assign) and norm(a.targets[0]) == v] if loop is not None else []
-        ok = loop is not None and len(defs) == 1 and norm(defs[0].value) == canon(f"list(obj_to_events({norm(loop.target)}))")
-    run.ob("L5", ok, "the hex and the table of an example come from the same event list of the shown object",
-           "the re-encoding / printing of an example no longer use one event list built from the shown object", module=mod,
-           node=enc[0] if enc else fn, func="examples", construct="examples rendering")
+    eps = paths.Summariser(mod, fn, impure={"fuzzy_match", "open"}).paths()
+    objl = loops_where(eps, lambda n, e: isinstance(n, ast.For) and (call_name(e) or "") == "events_to_objs")
+    run.require(len(objl) >= 1, "C19: the object loop of `example` not found")
+    for encl, lp, it, body in objl:
+        if not isinstance(lp.target, ast.Name):
+            raise AnalysisError("C19: object loop target of `example` is not a name")
+        ov = lp.target.id
+        C0, H1, E1 = "command_code is None", f"hasattr({ov}, 'commandCode')", f"{ov}.commandCode == command_code"
+        H2, E2 = f"hasattr({ov}, '_command_code')", f"{ov}._command_code == command_code"
+        spec = [({C0: True}, "show"), ({H1: True, E1: True}, "show"), ({H2: True, E2: True}, "show")]
+        SS = paths.Summariser(mod, fn)
+        for b in body:
+            inner = [(e, n) for k, e, n in b.effects if k == "loop"]
+            prints = [e for k, e in b.effect_texts(("call",)) if e.startswith("print(")]
+            got = "show" if inner else "hide"
+            want = paths.decide_src(SS, b, spec, "hide")
+            run.ob("L5", want == {got}, f"example [{label(b)[:70]}]: {got}",
+                   f"a message with [{label(b)}] is {'shown' if got == 'show' else 'hidden'}, required {sorted(want)}: the command-code filter "
+                   "of `example` changed (a message is shown only if its command code is the sought one, or a type is sought)",
+                   module=mod, node=b.cond[-1][2] if b.cond else lp, func="examples", construct="examples command filter")
+            run.ob("L5", not prints, "every example line is printed under that filter",
+                   "an example is printed outside the command-code filter", module=mod, node=b.node or lp, func="examples",
+                   construct="examples prints under filter")
+            if not inner:
+                continue
+            # what is shown: the object itself, or its sub-objects of exactly the sought type
+            tt = paths.truth_src(SS, b, "tpm_type")
+            src = paths.text(inner[0][0])
+            if tt:
+                asg = [paths.text(e.value) for k, e, _ in b.effects if k == "assign" and norm(e.targets[0]) == src]
+                src = asg[-1] if asg else src
+            want_src = paths.expand_src(SS, b, f"list(find_fields(tpm_type=tpm_type, obj={ov}))") if tt else f"({ov},)"
+            run.ob("L5", tt is not None and len(inner) == 1 and src == want_src,
+                   "for a type, only the sub-objects of exactly that type are shown",
+                   f"object selection of `example` changed: [{label(b)[:60]}] shows `{src}`", module=mod, node=inner[0][1],
+                   func="examples", construct="examples object selection")
+            # rendering: hex and table from one event list built from the shown object
+            ilp = inner[0][1]
+            if not isinstance(ilp, ast.For) or not isinstance(ilp.target, ast.Name):
+                continue
+            sv = ilp.target.id
+            for ib in b.loops[id(ilp)]:
+                asg = {norm(e.targets[0]): paths.text(e.value) for k, e, _ in ib.effects if k == "assign"}
+                evs = [k for k, v in asg.items() if v == f"list(obj_to_events({sv}))"]
+                okx = len(evs) == 1 and f"list(Binary.unmarshal({evs[0]}))" in asg.values()
+                if ib.end == "fall":
+                    tbl = [paths.text(e) for k, e, _ in ib.effects if k == "loop"]
+                    okx = okx and f"Pretty.unmarshal({evs[0]})" in tbl
+                run.ob("L5", okx, "the hex and the table of an example come from the same event list of the shown object",
+                       "the re-encoding / printing of an example no longer use one event list built from the shown object", module=mod,
+                       node=ib.node or ilp, func="examples", construct="examples rendering")
